@@ -25,6 +25,7 @@ FORMULAS = {
     2: "y ~ scale(x) + poly(z, 2) + o + f:x + (1 | g)",
     3: "y ~ C(k, levels=KL) + B(g) + standardize(z) + (scale(x) | h)",
     4: "f ~ x + h + bs(z, df=4)",
+    5: "y ~ poly(xc, 2) + center(xc) + (scale(xc) | g)",   # training parameters that are exactly zero
 }
 NS = {"KL": [1, 2, 3, 10, 20]}
 _FRAMES = {}
@@ -47,6 +48,8 @@ def frames():
             df[col] = np.array(vals, dtype=object)
         df["o"] = pd.Categorical([["lo", "mid", "hi"][(i + seed) % 3] for i in range(n)], categories=["lo", "mid", "hi"], ordered=True)
         df["k"] = np.array([[1, 2, 3][(i * 5 + seed) % 3] for i in range(n)], dtype=np.int64)
+        if fid in (3, 4):
+            df["xc"] = np.array([(i * 3 + seed) % 5 + 1 for i in range(n)], dtype=np.int64)   # new frames are not centred
         if fid == 4:
             df.loc[df.index[0], "f"] = "zzz"
             df.loc[df.index[1], "g"] = "G9"
@@ -259,7 +262,7 @@ def random_history(rng, maxlen):
         r = rng.random()
         if nd == 0 or r < 0.2:
             if nd < 4:
-                ops.append({"op": "build", "f": rng.randint(1, 4), "D": rng.randint(1, 2)})
+                ops.append({"op": "build", "f": rng.randint(1, 5), "D": rng.randint(1, 2)})
                 nd += 1
                 continue
         if r < 0.7:
@@ -272,7 +275,7 @@ def random_history(rng, maxlen):
         elif r < 0.93:
             ops.append({"op": "print"})
         else:
-            ops.append({"op": "describe", "f": rng.randint(1, 4)})
+            ops.append({"op": "describe", "f": rng.randint(1, 5)})
     return ops
 
 
@@ -329,7 +332,7 @@ def mc_histories(rep, maxlen):
         out = os.path.join(tmp, "h.ndjson")
         cfg = common.write_cfg(
             os.path.join(tmp, "Lifecycle_MC.cfg"),
-            constants={"Formulas": "{1, 2, 3}", "TrainFrames": "{1, 2}", "NewFrames": "{3, 4}", "Modes": ["error", "warning", "silent"], "BadValues": ["bogus"], "MaxLen": maxlen, "DoExport": True},
+            constants={"Formulas": "{1, 2, 5}", "TrainFrames": "{1, 2}", "NewFrames": "{3, 4}", "Modes": ["error", "warning", "silent"], "BadValues": ["bogus"], "MaxLen": maxlen, "DoExport": True},
             invariants=["HistoryIndependent", "ConfigValid", "Export"],
             properties=["Frozen", "ConfigDiscipline"],
         )
